@@ -15,6 +15,13 @@ import b2fcommon as bc
 def run(ctx):
     binary = vlib.build_harness(ctx)
     quick = ctx.tier == "quick"
+    # design: the mechanism model with Cut at every unit boundary, StoreFail, several sessions; liveness; and the
+    # counterexample of the named deviation ReportBeforeConfirm
+    vlib.design_check(ctx, bc.SPECDIR, "MCB2F", "B2F_fault.cfg" if quick else "B2F_fault_thorough.cfg", timeout=3000)
+    vlib.design_check(ctx, bc.SPECDIR, "MCB2F", "B2F_live.cfg")
+    dev = vlib.tlc(ctx, bc.SPECDIR, "MCB2F", "B2F_deviation.cfg")
+    if dev.violated != "NoFalseSent":
+        raise vlib.Undecided("B2F_deviation.cfg no longer produces the NoFalseSent counterexample")
     traces = ctx.path("traces.ndjson")
     scen = ctx.path("scen.ndjson")
     p = vlib.run_harness(ctx, binary, ["b2f-c02", "--out", traces, "--scenarios", scen, "--stride", "7" if quick else "1",
